@@ -1144,7 +1144,10 @@ class NDArraySerializerBase(
     ) -> npt.NDArray[Any]:
         flat_length = int(np.prod(shape))  # type: ignore
 
-        if self.element_serializer.is_trivially_serializable():
+        if (
+            self.element_serializer.is_trivially_serializable()
+            and not NDArraySerializerBase._has_padding(self._array_dtype)
+        ):
             flat_byte_length = flat_length * self._array_dtype.itemsize
             byte_array = stream.read_bytearray(flat_byte_length)
             return np.frombuffer(byte_array, dtype=self._array_dtype).reshape(shape)
@@ -1159,11 +1162,14 @@ class NDArraySerializerBase(
         return (
             self.element_serializer.is_trivially_serializable()
             and value.flags.c_contiguous
-            and (
-                self._array_dtype.fields is None
-                or all(f != "" for f in self._array_dtype.fields)
-            )
+            and not NDArraySerializerBase._has_padding(value.dtype)
         )
+
+    @staticmethod
+    def _has_padding(dtype: np.dtype[Any]) -> bool:
+        # The bytes of an aligned structured dtype include padding, which is not part of the stream
+        packed_dtype = recfunctions.repack_fields(dtype, align=False, recurse=True)  # type: ignore
+        return packed_dtype.itemsize != dtype.itemsize
 
 
 class DynamicNDArraySerializer(NDArraySerializerBase[T, T_NP]):
